@@ -43,9 +43,48 @@ pub fn parse_net(line: &str) -> Option<NetworkFilter> {
     }
 }
 /// Per-rule matcher with a fresh regex manager (the cache is keyed by rule address).
+thread_local! {
+    /// requests built by `clean_request` / registered by a harness: normalised url -> (url as given, source, raw type)
+    static REQ_CTX: std::cell::RefCell<std::collections::HashMap<String, (String, String, String)>> = std::cell::RefCell::new(Default::default());
+    /// (rule, request) pairs on which NetworkFilter::matches and the reading of the rule TEXT
+    /// (refrule::rule_applies) disagree; `Summary::write` turns them into failures
+    pub static TEXT_MISMATCHES: std::cell::RefCell<Vec<(String, serde_json::Value)>> = std::cell::RefCell::new(vec![]);
+    pub static TEXT_JUDGED: std::cell::Cell<(u64, u64)> = std::cell::Cell::new((0, 0));
+}
+/// Make the textual context of a request known to `rule_matches` (url as given, source, raw type).
+pub fn register_request(req: &Request, url: &str, source: &str, raw_type: &str) {
+    REQ_CTX.with(|c| {
+        let mut c = c.borrow_mut();
+        if c.len() > 4096 { c.clear(); }
+        c.insert(format!("{} {:?} {}", req.url, req.request_type, req.is_third_party), (url.to_string(), source.to_string(), raw_type.to_string()));
+    });
+}
+/// The crate's own per-rule matcher; whenever the rule was parsed in debug mode and the request was
+/// registered, the answer is also compared with the reading of the rule text.
 pub fn rule_matches(f: &NetworkFilter, req: &Request) -> bool {
     let mut rm = RegexManager::default();
-    f.matches(req, &mut rm)
+    let hit = f.matches(req, &mut rm);
+    if let Some(line) = f.raw_line.as_ref() {
+        let ctx = REQ_CTX.with(|c| c.borrow().get(&format!("{} {:?} {}", req.url, req.request_type, req.is_third_party)).cloned());
+        if let Some((url, src, ty)) = ctx {
+            match crate::refrule::rule_applies(line, req, &url, &src, &ty) {
+                Some(want) => {
+                    TEXT_JUDGED.with(|c| { let (a, b) = c.get(); c.set((a + 1, b)) });
+                    if want != hit {
+                        TEXT_MISMATCHES.with(|m| {
+                            let mut m = m.borrow_mut();
+                            if m.len() < 50 {
+                                m.push((format!("the rule {:?} {} the {} request {} from {:?} by its text, but NetworkFilter::matches says {}", line, if want { "applies to" } else { "does not apply to" }, ty, url, src, hit),
+                                    serde_json::json!({"kind": "text_reading", "rules": [(**line).clone()], "url": url, "source": src, "type": ty})));
+                            }
+                        });
+                    }
+                }
+                None => TEXT_JUDGED.with(|c| { let (a, b) = c.get(); c.set((a, b + 1)) }),
+            }
+        }
+    }
+    hit
 }
 #[derive(Debug, Clone, PartialEq)]
 pub struct V {
@@ -147,5 +186,6 @@ pub fn clean_request(r: &mut Rng, lines: &[String]) -> Option<(String, String, &
     if !req.is_http && !req.is_https {
         return None;
     }
+    register_request(&req, &url, &src, ty);
     Some((url, src, ty, req))
 }
